@@ -23,9 +23,12 @@ pub type Result<T> = core::result::Result<T, SvgdxError>;
 //@end
 
 pub open spec fn names(v: Seq<String>) -> Seq<Seq<char>> { v.map(|i: int, s: String| s@) }
+pub uninterp spec fn var_of(ctx: Ctx, v: Seq<char>) -> Option<Seq<char>>;
 impl Ctx {
-    #[verifier::external_body] pub fn get_var(&self, v: &str) -> Option<String> { unimplemented!() }
+    #[verifier::external_body]
+    pub fn get_var(&self, v: &str) -> (r: Option<String>) ensures opt_sv(r) == var_of(*self, v@) { unimplemented!() }
 }
+pub open spec fn opt_sv(o: Option<String>) -> Option<Seq<char>> { match o { Some(s) => Some(s@), None => None } }
 #[verifier::external_body] pub fn tokenize(s: &String) -> Result<Vec<Token>> { unimplemented!() }
 /// itertools: `xs.iter().contains(&String::from(v))`
 #[verifier::external_body]
@@ -46,6 +49,7 @@ impl<'a> EvalState<'a> {
 //@ replace[R-itertools] <<<self.checked_vars.iter().contains(&String::from(v))>>> => <<<vec_has(&self.checked_vars, v)>>>
 //@ ensures
 //@ - names(old(self).checked_vars@).contains(v@) ==> r is Err && r->Err_0 is CircularRefError     @@C14.var.circular_is_error @@C01.var.cycle_detected
+//@ - var_of(*old(self).context, v@) is None ==> r is Err     @@C14.var.undefined_is_error
 //@ - r is Ok ==> final(self).checked_vars@ == old(self).checked_vars@ && final(self).index == old(self).index && final(self).tokens == old(self).tokens     @@C14.var.checked_restored
 //@end
 }
